@@ -132,17 +132,20 @@ def r2_naming(ctx):
         if fn is None:
             r.missing(fname)
             continue
+        from rules import sem
         lits = []
-        for m in find_all(fn.body, "Macro"):
+        # the function with its private single-purpose helpers inlined: the prefix may be applied in a helper
+        for m in find_all(sem.nbody(ast, fn), "Macro"):
             if m["path"] == "format" and m.get("args") and m["args"][0]["k"] == "Lit":
                 lits.append(m["args"][0].get("str"))
         fmt[fname] = lits
-    want = {"parse_foreign_key_args_inner": ["var_{}"], "find_variable": ["var_{}", "var_{}"], "find_closing_tag": ["comp_{}"]}
+    want = {"parse_foreign_key_args_inner": "var_{}", "find_variable": "var_{}", "find_closing_tag": "comp_{}"}
     for k, w in want.items():
-        if fmt.get(k) != w:
+        # every name built in the function carries the one prefix of its kind (how often it is written does not matter)
+        if not fmt.get(k) or set(fmt[k]) != {w}:
             r.viol("R2:" + k, "name prefixes in %s are %s, expected %s" % (k, fmt.get(k), w), file=PV)
         else:
-            r.inst(k, "prefix " + w[0])
+            r.inst(k, "prefix " + w)
     fn = ast.fn("leptos_i18n_macro/src/t_macro/interpolate.rs", "format_ident", impl_self="InterpolatedValue")
     if fn is None:
         r.missing("t! InterpolatedValue::format_ident")
